@@ -195,7 +195,7 @@ def table():
         others = [p for p in det if p != owner]
         rows.append(f"| {sid} | {owner} | {'yes' if owner in det else 'NO'} | {', '.join(others) or '–'} | {(m.get('summary') or '')[:110].replace('|', '/')} |")
     hdr = "| change | breaks | caught by its own check | also caught by | what it does |\n|---|---|---|---|---|\n"
-    open(f"{SEEDED}/TABLE.md", "w").write("# Seeded changes and the checks that catch them\n\nGenerated by tools/seedmatrix.py from the meta.json files (final checker, every claimed check run against every change).\n\n" + hdr + "\n".join(rows) + "\n")
+    open(f"{SEEDED}/TABLE.md", "w").write("# Seeded changes and the checks that catch them\n\nGenerated by tools/seedmatrix.py from the meta.json files. The column \"caught by its own check\" is from a pass with the final checker over the whole corpus (tools/seedowner.py); \"also caught by\" is from the last full matrix run of each round (every claimed check against every change) and is a lower bound — rules have only been added since.\n\n" + hdr + "\n".join(rows) + "\n")
     print(len(rows), "rows")
 
 
